@@ -1,5 +1,5 @@
 \* spec -> code: every case printed with its expected arrays
-CONSTANTS NG = 2  NGam = 2  Variants = {1, 2}
+CONSTANTS NG = 3  NGam = 2  Variants = {1, 2}
 CONSTANT DensSeq <- DensQuick
 CONSTANT PairSet <- PairQuick
 INIT Init
